@@ -230,14 +230,18 @@ int main(int argc, char* const* argv)
     }
     char* script_str = nullptr;
     if (pipe_in) {
+        // read the whole first line, however long (a fixed 1024-byte buffer silently cut longer scripts)
+        std::string line;
         char buf[1024];
-        if (!fgets(buf, 1024, stdin)) {
-            fprintf(stderr, "warning: no input\n");
-            buf[0] = 0;
+        bool got_input = false;
+        while (fgets(buf, sizeof(buf), stdin)) {
+            got_input = true;
+            line += buf;
+            if (!line.empty() && line.back() == '\n') break;
         }
-        int len = strlen(buf);
-        while (len > 0 && (buf[len-1] == '\n' || buf[len-1] == '\r')) buf[--len] = 0;
-        script_str = strdup(buf);
+        if (!got_input) fprintf(stderr, "warning: no input\n");
+        while (!line.empty() && (line.back() == '\n' || line.back() == '\r')) line.pop_back();
+        script_str = strdup(line.c_str());
     } else if (ca.l.size() > 0) {
         script_str = strdup(ca.l[0]);
         ca.l.erase(ca.l.begin(), ca.l.begin() + 1);
